@@ -374,8 +374,11 @@ class C18:
         """SIGINT (Ctrl-C / scancel --signal=INT) delivered at a recorded system call: handle_abort_signal sets a
         flag, the run continues to the next checkpoint, saves and ends with KeyboardInterrupt; then resume"""
         raw = self.refs[(wl, fmt)]['raw']
+        # only while the simulation's own handler is installed (`with sim:`), i.e. from the first measurement on
+        first = min(i for i, e in enumerate(raw) if e['ev'] and e['ev'].get('op') == 'marker' and
+                    e['ev']['text'].split()[0] in ('meas', 'alg', 'ckpt'))
         return [self.make_plan(wl, fmt, [dict(mode='run', f=None, raw_idx=i, sig='INT')], 'sigint')
-                for i in range(1, len(raw), stride)]
+                for i in range(first, len(raw), stride)]
 
     def run_plans(self, plans):
         t0 = time.time()
@@ -698,7 +701,7 @@ def check(ctx):
             plans += t.plans_from_dump('dmrg2_min1', 'pkl', 2, 0)
             plans += t.plans_from_dump('tebd_trunc', 'pkl', 2, 1)
             sig = t.plans_sigint('dummy', 'pkl')
-            plans += [sig[7], t.rnd.choice(sig[:7] + sig[8:])]
+            plans += [sig[0], t.rnd.choice(sig[1:])]
         else:
             for wl, fmt in pairs:
                 if WL[wl]['kind'] == 'dummy':
